@@ -64,6 +64,8 @@ type handler1 struct {
 	// changes of the sleep state: nothing may be sent to the client after
 	// the packet which puts it to sleep.
 	snLock sync.Mutex
+	// The client has sent a plain DISCONNECT (guarded by snLock).
+	clientGone bool
 	group            *errgroup.Group
 	transactions     *transactions.TransactionStore
 	// Transactions initiated by the MQTT broker. The client and the broker
@@ -946,13 +948,20 @@ func (h *handler1) handleMqttSn(ctx context.Context, pkt snPkts.Packet) error {
 	// Client DISCONNECT transaction.
 	case *snPkts1.Disconnect:
 		if snPkt.Duration == 0 {
-			mqPkt := mqPkts.NewControlPacket(mqPkts.Disconnect).(*mqPkts.DisconnectPacket)
-			h.mqttSend(mqPkt)
+			// The state must be changed and the client answered before the
+			// MQTT broker gets its DISCONNECT: the broker closes the connection
+			// at once and the handler starts to shut down.
+			h.snLock.Lock()
+			h.clientGone = true
 			h.setState(util.StateDisconnected)
 			m3 := snPkts1.NewDisconnect(0)
-			if err := h.snSend(m3); err != nil {
+			err := h.snSendLocked(m3)
+			h.snLock.Unlock()
+			if err != nil {
 				return err
 			}
+			mqPkt := mqPkts.NewControlPacket(mqPkts.Disconnect).(*mqPkts.DisconnectPacket)
+			h.mqttSend(mqPkt)
 			return Shutdown
 		} else {
 			h.log.Debug("Going to sleep for %vs", snPkt.Duration)
